@@ -13,8 +13,8 @@
    k <= 8, m,n <= 12 (C16_x_power_partial), the term lists of the model builders (dense oracle only). *)
 From Coq Require Import QArith ZArith List String Bool Arith.
 Import ListNotations.
-From RV Require Import Model.Ladder Model.Pauli Model.SineDvr Model.Builders Gen.ShoTable Gen.Builders
-                       Proofs.LadderProofs Proofs.PauliProofs Proofs.SineDvrProofs Proofs.BuildersProofs.
+From RV Require Import Model.Ladder Model.Pauli Model.SineDvr Model.Builders Model.BasisCopy Gen.ShoTable Gen.Builders Gen.BasisCopy
+                       Proofs.LadderProofs Proofs.PauliProofs Proofs.SineDvrProofs Proofs.BuildersProofs Proofs.BasisCopyProofs.
 Close Scope Q_scope.
 
 (* ---- 1. a symbol written as a product denotes the matrix product in the written order -----------------------
@@ -278,6 +278,26 @@ Example C16_builders_nonvacuous :
                     (fun _ _ => 3%Z) (fun _ _ => false) (fun _ _ => (1 # 4)%Q) in
    (forall i l, dis_g P i l == 0)%Q /\ List.length (holstein_ham P) = 12).
 Proof. split; [reflexivity|]. split; [intros; reflexivity|reflexivity]. Qed.
+
+(* ==== 10. copy(new_dof) returns the same basis (used by TI1DModel for the per-cell bases and by
+   BasisTree.add_auxiliary_space for the auxiliary space) ==========================================================
+   Structural obligation on the facts regenerated from basis.py (Gen/BasisCopy.v): for every claimed class, each
+   argument of copy is the attribute that stores the parameter it is handed to, and every constructor parameter that
+   op_mat depends on (through any attribute computed from it) -- and `sigmaqn` (identity_param) whenever it is a
+   constructor parameter, since the quantum numbers belong to the identity of the basis -- is forwarded, or absorbed (occurs only as the guard of
+   a block adjusting other, forwarded parameters and defaults to false: BasisSineDVR `endpoint`).
+   All eight BasisSet subclasses of the source are claimed (copy_reported_classes is empty); every subclass found in
+   the source is in the list.  That the copy's MATRICES equal the original's is the dense oracle. *)
+Theorem C16_copy_forwards : forall n, In n copy_checked_classes ->
+  exists c, find_class n basis_classes = Some c /\ args_faithful c = true /\
+            forall q, In q (bc_params c) -> relevant c (fst (fst q)) = true \/ identity_param (fst (fst q)) = true ->
+                      forwarded c (fst (fst q)) = true \/ absorbed c (fst (fst q)) = true.
+Proof. exact copy_forwards. Qed.
+Print Assumptions C16_copy_forwards.
+
+Theorem C16_copy_classes_complete : forall c, In c basis_classes -> In (bc_name c) all_basis_classes.
+Proof. exact copy_classes_complete. Qed.
+Print Assumptions C16_copy_classes_complete.
 
 (* ---- non-vacuity: the generated table has the 21 literal branches; x, p are genuinely of degree one with both
    ladder components, so the corner term of (1b) and the top-level defect of the commutator are non-zero ------------ *)
